@@ -483,3 +483,37 @@ Example C08_fair_terminates_nonvacuous :
   finished s = true /\ killed s = false /\ length (log s) = 5%nat /\
   finished (run ex_cfg (pre tri_sched 300%nat) (init ex_cfg f16_base ex_root)) = false.
 Proof. split; [apply fair_wfair; exact tri_fair|]. vm_compute. repeat split. Qed.
+
+(** ---------- fourth part: the pair a caller holds after Wait, as the executable relation that the
+    correspondence check evaluates on EVERY run of the real loop (case [CRep] of Corr/C08.v).
+
+    [rep_ok n failed obs sel] (Model/LoopRep.v): n = 0 entries in Loop.Errors() => no failure was
+    returned to the loop and the callbacks are the selected set; n > 0 => the callbacks lie within
+    the selected set.  C08_reported_decides: the model satisfies it after Wait on every schedule -
+    Kill events of the environment (a Kill or Error event of the scope the loop is attached to, the
+    deadline) at any point included.  So a walk that was ended early, by whatever, never comes with
+    an empty error list; C08_rep_ok_empty is the reading of an accepted case. *)
+From GC Require Import Model.LoopRep Proofs.LoopRep.
+
+Theorem C08_reported_decides : forall cfg base root sched,
+  xt cfg = ClosedThenEmpty -> (1 <= cmax cfg)%nat ->
+  let s := run cfg sched (init cfg base root) in
+  waited s = true ->
+  rep_ok (length (reported s)) (failed_b cfg s) (log s) (sel_list cfg base root) = true.
+Proof. exact reported_decides. Qed.
+Print Assumptions C08_reported_decides.
+
+Theorem C08_rep_ok_empty : forall failed obs sel,
+  rep_ok 0%nat failed obs sel = true -> failed = false /\ Permutation obs sel.
+Proof. exact rep_ok_empty. Qed.
+Print Assumptions C08_rep_ok_empty.
+
+(* non-vacuity: the Kill-event-only run of C08_kill_event_reported (nothing visited, two nodes
+   selected) passes the relation only because its error list is not empty; with the length 0 that a
+   loop hiding the cancellation would report, the same observation is rejected *)
+Example C08_reported_decides_nonvacuous :
+  let s := run kl_cfg kl_sched (init kl_cfg kl_base kl_root) in
+  waited s = true /\ length (reported s) = 1%nat /\
+  rep_ok (length (reported s)) (failed_b kl_cfg s) (log s) (sel_list kl_cfg kl_base kl_root) = true /\
+  rep_ok 0%nat (failed_b kl_cfg s) (log s) (sel_list kl_cfg kl_base kl_root) = false.
+Proof. vm_compute. repeat split. Qed.
